@@ -340,7 +340,17 @@ def mutate_fen(rng, fen):
         i = rng.below(len(fen) + 1)
         return fen[:i] + rng.pick(list('pP1 8/kq-wb')) + fen[i:]
     if kind == 5:
-        f[0] = f[0].replace('8', rng.pick(['44', '17', '71', '9', '7', '35']), 1)
+        if rng.chance(1, 2):
+            f[0] = f[0].replace('8', rng.pick(['44', '17', '71', '9', '7', '35']), 1)
+            return ' '.join(f)
+        # split one digit d >= 2 into two adjacent digits with the same sum (rank still sums to eight): must be rejected
+        # wherever in the rank it stands
+        idx = [i for i, c in enumerate(f[0]) if c in '2345678']
+        if idx:
+            i = rng.pick(idx)
+            d = int(f[0][i])
+            a = 1 + rng.below(d - 1)
+            f[0] = f[0][:i] + str(a) + str(d - a) + f[0][i + 1:]
         return ' '.join(f)
     if kind == 6:
         f[1] = rng.pick(['W', 'B', 'x', '', 'wb', '-'])
@@ -899,7 +909,7 @@ def c11_post(ctx, cases, impl):
 
 PROPS = {
     'C01': dict(modules=[], theorems=[], cases=c01_cases, anchors=BOARD_ANCHORS),
-    'C02': dict(modules=[], theorems=[], cases=c02_cases, anchors=BOARD_ANCHORS),
+    'C02': dict(modules=['Inkayaku.Props.C02'], theorems=['Inkayaku.C02.make_eq_apply', 'Inkayaku.C02.fen_make', 'Inkayaku.C02.make_eq_apply_legal', 'Inkayaku.C02.fen_make_legal', 'Inkayaku.C02.make_eq_apply_meta', 'Inkayaku.C02.castle_relocates_rook', 'Inkayaku.C02.en_passant_removes_pawn', 'Inkayaku.C02.promotion_replaces_pawn', 'Inkayaku.C02.rights_lost_iff', 'Inkayaku.C02.clock_reset_iff', 'Inkayaku.C02.fullmove_increments_after_black'], cases=c02_cases, anchors=BOARD_ANCHORS),
     'C03': dict(modules=['Inkayaku.Props.C03'], theorems=['Inkayaku.C03.vis_eq_iff', 'Inkayaku.C03.field_roundtrip', 'Inkayaku.C03.pack_injective', 'Inkayaku.C03.unmake_make', 'Inkayaku.C03.unmake_make_line', 'Inkayaku.C03.hash_restored', 'Inkayaku.C03.hash_restored_line', 'Inkayaku.C03.unmake_make_generated', 'Inkayaku.C03.unmake_make_generated_nq', 'Inkayaku.C03.unmake_make_generated_line'], cases=c03_cases, anchors=BOARD_ANCHORS),
     'C04': dict(modules=['Inkayaku.Props.C04'],
                 theorems=['Inkayaku.C04.rook_correct', 'Inkayaku.C04.bishop_correct', 'Inkayaku.C04.rook_correct_u64',
@@ -909,7 +919,7 @@ PROPS = {
                          'core/src/constants/direction.rs', 'core/src/constants/square.rs'],
                 assumptions=['rustc evaluates the const tables as dumped by the same binary at run time']),
     'C05': dict(modules=['Inkayaku.Props.C05'], theorems=['Inkayaku.C05.square_attacked', 'Inkayaku.C05.in_check', 'Inkayaku.C05.current_in_check', 'Inkayaku.C05.valid', 'Inkayaku.C05.move_legal', 'Inkayaku.C05.wf_not_in_check', 'Inkayaku.C05.occupancy_in_check', 'Inkayaku.C05.no_moves_iff'], cases=c05_cases, anchors=BOARD_ANCHORS),
-    'C06': dict(modules=['Inkayaku.Props.C06'], theorems=['Inkayaku.C06.hash_incremental', 'Inkayaku.C06.pawnHash_incremental', 'Inkayaku.C06.hash_congr', 'Inkayaku.C06.hash_vis', 'Inkayaku.C06.hash_clocks', 'Inkayaku.C06.keys_good', 'Inkayaku.C06.hash_side', 'Inkayaku.C06.hash_toggles_right', 'Inkayaku.C06.hash_ep_file', 'Inkayaku.C06.hash_moves_piece', 'Inkayaku.C06.hash_changes_kind'], cases=c06_cases, post=c06_post, anchors=BOARD_ANCHORS),
+    'C06': dict(modules=['Inkayaku.Props.C06', 'Inkayaku.Props.C06Gen'], theorems=['Inkayaku.C06Gen.hash_incremental_generated', 'Inkayaku.C06Gen.pawnHash_incremental_generated', 'Inkayaku.C06.hash_incremental', 'Inkayaku.C06.pawnHash_incremental', 'Inkayaku.C06.hash_congr', 'Inkayaku.C06.hash_vis', 'Inkayaku.C06.hash_clocks', 'Inkayaku.C06.keys_good', 'Inkayaku.C06.hash_side', 'Inkayaku.C06.hash_toggles_right', 'Inkayaku.C06.hash_ep_file', 'Inkayaku.C06.hash_moves_piece', 'Inkayaku.C06.hash_changes_kind'], cases=c06_cases, post=c06_post, anchors=BOARD_ANCHORS),
     'C10': dict(modules=['Inkayaku.Props.C10', 'Inkayaku.Props.C10Fifty'],
                 theorems=['Inkayaku.C10.countRepetitions_value', 'Inkayaku.C10.countRepetitions_spec',
                           'Inkayaku.C10.never_reads_above_start', 'Inkayaku.C10.threefold_iff',
